@@ -13,6 +13,7 @@ import (
 	"sort"
 	"strings"
 	"sync"
+	"sync/atomic"
 	"testing"
 	"time"
 
@@ -510,6 +511,74 @@ func classes() []class {
 			drain(e.srch.Search(c, &pb.SearchRequest{DatasetId: e.dsId, Query: vec(1, 5, 5, 5), K: 5}))
 		})
 	}
+	// "in any order" includes at the same time: valid requests of every kind overlapping on one partition - batch
+	// inserts and batch removals that keep a few hundred items churning (so that vertices of the upper levels are
+	// linked and unlinked all the time) while a dozen clients search
+	add("any-order:searches-overlapping-writes-on-one-partition", func(e *env) {
+		c0, f0 := e.ctx()
+		d, err := e.dm.Create(c0, &pb.Dataset{Dimension: 8, PartitionCount: 1, ReplicationFactor: 1})
+		f0()
+		if err != nil {
+			return
+		}
+		var writersDone int32
+		var wg, sg sync.WaitGroup
+		for w := 0; w < 3; w++ {
+			wg.Add(1)
+			go func(w int) {
+				defer wg.Done()
+				rng := rand.New(rand.NewSource(int64(w) + 77))
+				next, oldest := 0, 0
+				idOf := func(n int) []byte { return hx.Id(100000*(w+1) + n).Bytes() }
+				for round := 0; round < 120 && e.s.Alive(); round++ {
+					var ins, rem []*pb.BatchItem
+					for i := 0; i < 25; i++ {
+						v := make([]float32, 8)
+						for j := range v {
+							v[j] = float32(rng.NormFloat64())
+						}
+						ins = append(ins, &pb.BatchItem{Id: idOf(next), Value: v})
+						next++
+					}
+					c, f := context.WithTimeout(context.Background(), 20*time.Second)
+					e.data.BatchInsert(c, &pb.BatchRequest{DatasetId: d.Id, Items: ins})
+					f()
+					for next-oldest > 130 {
+						rem = append(rem, &pb.BatchItem{Id: idOf(oldest)})
+						oldest++
+					}
+					if len(rem) > 0 {
+						c, f := context.WithTimeout(context.Background(), 20*time.Second)
+						e.data.BatchRemove(c, &pb.BatchRequest{DatasetId: d.Id, Items: rem})
+						f()
+					}
+				}
+			}(w)
+		}
+		for r := 0; r < 12; r++ {
+			sg.Add(1)
+			go func(r int) {
+				defer sg.Done()
+				rng := rand.New(rand.NewSource(int64(r) + 991))
+				for atomic.LoadInt32(&writersDone) == 0 && e.s.Alive() {
+					q := make([]float32, 8)
+					for j := range q {
+						q[j] = float32(rng.NormFloat64())
+					}
+					c, f := context.WithTimeout(context.Background(), 20*time.Second)
+					if r%2 == 0 {
+						drain(e.srch.Search(c, &pb.SearchRequest{DatasetId: d.Id, Query: q, K: 10}))
+					} else {
+						drain(e.srch.SearchPartitions(c, &pb.SearchPartitionsRequest{DatasetId: d.Id, PartitionIds: [][]byte{d.Partitions[0].Id}, Query: q, K: 10}))
+					}
+					f()
+				}
+			}(r)
+		}
+		wg.Wait()
+		atomic.StoreInt32(&writersDone, 1)
+		sg.Wait()
+	})
 	// nothing hostile at all: the baseline of the rig
 	add("baseline:valid-requests-only", func(e *env) {
 		c, f := e.ctx()
